@@ -91,6 +91,9 @@ func (st *reqState) enter(ctx context.Context, spec connect.Spec) {
 		if st.dl > 1<<30 {
 			st.dl = 1 << 30 // clipped: the specification's integers are 32 bit
 		}
+		if st.dl < 0 {
+			st.dl = 0 // already passed (-1 means: no deadline)
+		}
 	}
 	st.proc = spec.Procedure
 	st.stype = int(spec.StreamType)
